@@ -89,6 +89,10 @@ PROPS = {    "C07": {
             "assumptions": ["'stable set of live targets' = the live list does not change between the n picks", "the EWMA value is float64 arithmetic: compared with the documented formula to within 1 ns by the harness, not proved"]},
     "C18": {"components": [{"name": "router", "driver": "router", "streams": ["r"]}], "rule": ROUTE_RULE, "trusted_base": TB_ROUTE, "modelled": ROUTE_MODELLED,
             "assumptions": ["bounded detection time, 'as soon as' and 'at once' are measured against the detection period / deadlines by the harness, not proved", "caller ids (Client.seq) are distinct"]},
+    "C12": {"components": [{"name": "server", "driver": "server", "streams": ["s"]}, {"name": "framing", "driver": "frame", "streams": ["f"]}, {"name": "e2e", "driver": "e2e", "streams": ["e"]}],
+            "rule": E2E_RULE + " | " + SRV_RULE + " | framing differential over buffer sizes and fragmentations",
+            "trusted_base": TB_COMMON + ["real sockets, TLS, netpoll, the OS in the end-to-end runs"], "modelled": SRV_MODELLED + " | " + E2E_MODELLED + " | Options resolution chains are read from dialer.go/server.go on every run (Generated/OptFacts.lean); the registries themselves, TLS and the socket packages are not modelled",
+            "assumptions": ["the cross product of networks x codecs x modes x buffer sizes is sampled end to end (PRNG over the matrix), not enumerated; the theorems cover server modes, header encoders, buffer sizes and fragmentation for all inputs", "ws is exercised one call at a time only (as the property states)", "NoCopy only with handlers and codecs that do not keep or alias argument bytes"]},
     "C04": {"components": [{"name": "server", "driver": "server", "streams": ["s"]}, {"name": "e2e", "driver": "e2e", "streams": ["e"]}],
             "rule": SRV_RULE + " | " + E2E_RULE, "trusted_base": TB_COMMON, "modelled": SRV_MODELLED + " | " + E2E_MODELLED,
             "assumptions": ["the peer uses each sequence number once per connection (guaranteed by the client half: K's pending-table invariant)", "Transport/Client never retry: checked by the end-to-end execution counts, not a theorem"]},
@@ -145,6 +149,10 @@ MANIFEST_TEXT = {
         "text": "Lean 4 theorems over R: parked callers and released callers are disjoint and nobody is parked after Close (invariant over every event sequence); the detector's release empties the waiter table in one critical section as soon as a target is live and no Fallback is in force; Close releases every waiter, afterwards routing answers ErrShutdown without waiting, a late parker is released at once and a second Close is a no-op; a parked caller's timeout step is always enabled; a dial failure marks the target dead and every call form reports (facts read from client.go). The harness measures detection time, wake-up latency, DialTimeout and the error values of all five call forms under scripted up/down histories.",
         "note": KERNEL_NOTE + "Timers are the runtime's: bounded detection time and 'at once' are measured against deadlines.",
         "technique": "Lean 4 proof (waiter invariant, release/close step theorems) + state correspondence + timed monitors for failover, wake-up, timeout and close"},
+    "C12": {
+        "text": "Lean 4 theorems: over the server-connection automaton S every response written is the answer prescribed by a configuration-free function of the request and its handler's verdict, two runs in different modes (direct I/O x pipelining) and schedules write the same response for the same request, and at the end of a connection the responses are exactly the prescribed answers; client and server resolve socket, body codec and header encoder from Options by the same chain (read from dialer.go/server.go on every run) in which a registered name wins over a constructor; header encoders emit the same bytes whatever the size or contents of the reused buffer; framing delivers the same messages for every fragmentation. End-to-end runs draw configurations from the full matrix (network incl. TLS, header encoder, body codec, server and client modes, buffer sizes 512..1M, options by name or constructor) and compare every transcript with the abstract spec computed by the Lean driver.",
+        "note": KERNEL_NOTE + "The matrix is sampled, not enumerated; real networks, TLS and body codecs are outside the model; poll mode is exercised end to end and by the poll component only.",
+        "technique": "Lean 4 proof (mode-independent answers, option-resolution equality, buffer/fragmentation independence) + translated option chains + state correspondence + end-to-end matrix against the Lean spec"},
     "C04": {
         "text": "Lean 4 theorems over the server-connection automaton S (every interleaving of reader, decode worker, execution workers, handlers, teardown; every request mix incl. all 256 upgrade bytes and junk; every disconnect point): no request is executed or answered twice, no handler or response is phantom, and at the end of the connection every request read was executed exactly once if it had to be and answered exactly once. S is compared state-by-state with the real ServeCodec under scripted schedules; end-to-end runs count executions per call across all configurations and through Transport and Client.",
         "note": KERNEL_NOTE + "Unique sequence numbers per connection are assumed of the peer (the client half proves it of the library's own client). 'Never retries' for Transport/Client is measured end to end.",
